@@ -119,16 +119,25 @@ where
                     let fresh = FRESH_WORKER_PER_CASE.load(std::sync::atomic::Ordering::SeqCst);
                     let mut used = false;
                     let mut first_failure_history: Option<(Vec<String>, String)> = None;
+                    let mut shrink_deadline: Option<std::time::Instant> = None;
+                    let mut skipped = 0u64;
                     let out = run_prop(base_stream * 64 + sh as u64, per, mk_strategy(), |c: &C| {
                         if fresh && used {
                             w.retire();
                         }
                         used = true;
+                        // a shard whose worker hung repeatedly stops executing (inconclusive);
+                        // shrinking gets a bounded budget once a failure is known
+                        if sub.counters.get("watchdog").copied().unwrap_or(0) > 3 || shrink_deadline.map(|d| std::time::Instant::now() > d).unwrap_or(false) {
+                            skipped += 1;
+                            return Ok(());
+                        }
                         let ex = w.exec(&json!({"op": op, "case": c, "opts": opts}), timeout);
                         let r = judge(&mut sub, c, ex, &hello);
                         if let Err(m) = &r {
                             if first_failure_history.is_none() {
                                 first_failure_history = Some((w.history.clone(), m.clone()));
+                                shrink_deadline = Some(std::time::Instant::now() + Duration::from_secs(150));
                             }
                             sub.freeze();
                         }
@@ -154,6 +163,9 @@ where
                         }
                     }
                     sub.count("worker_processes", w.spawned);
+                    if skipped > 0 {
+                        sub.count("cases_not_executed_after_watchdog_or_shrink_budget", skipped);
+                    }
                     sub
                 })
             })
@@ -227,6 +239,14 @@ fn judge_place(rec: &mut Recorder, c: &place::PlaceCase, ex: Exec, _hello: &Valu
         FakeSel::SynthAbs { api, .. } => format!("synth-abs-api{}", api % 3),
     };
     rec.class(&format!("{tclass}/{}{}", flav, if o.straddles { "/straddle" } else { "" }));
+    if o.priors > 0 {
+        rec.class(&format!("re-fake/after-{}-earlier-installations", o.priors));
+        if let (FakeSel::Rust { kind, .. }, Some((first, _))) = (&c.fake, c.prior.first()) {
+            if kind == first && c.prior.len() >= 2 {
+                rec.class("re-fake/same-kind-as-an-earlier-one");
+            }
+        }
+    }
     let long_tramp = o.decode_trace.iter().any(|t| t.contains("movabs"));
     if long_tramp {
         rec.class("trampoline=long");
@@ -255,14 +275,14 @@ fn judge_place(rec: &mut Recorder, c: &place::PlaceCase, ex: Exec, _hello: &Valu
         FakeSel::Synth { d, .. } => (d - i32::MAX as i64).abs() <= 16 || (d - i32::MIN as i64).abs() <= 16,
         _ => false,
     };
-    if o.straddles || o.target_addr < (1 << 27) || long_tramp || d_edge {
+    if o.straddles || o.target_addr < (1 << 27) || long_tramp || d_edge || o.priors > 0 {
         rec.nontrivial(&(o.target_addr, o.tramp_page, o.fake_addr, &flav, o.straddles));
     }
     Ok(())
 }
 
 fn cmd_place(prop: &str) -> i32 {
-    let rule = "N: real crate, worker process with ASLR off; generated (target address class incl. in-page offset, dictated trampoline page in +/-128 MiB, fake displacement from the trampoline incl. +/-2^31 edge and far, API flavour, caller threads); entry and trampoline decoded by the mini-decoder, then really called; non-trivial = installed-and-called case that is page-straddling, below 128 MiB, uses the long trampoline form or has a fake displacement within 16 of +/-2^31; distinct by (target, trampoline page, fake, flavour)";
+    let rule = "N: real crate, worker process with ASLR off; generated (target address class incl. in-page offset, 0-3 earlier installations on the same function, dictated trampoline page in +/-128 MiB, fake displacement from the trampoline incl. +/-2^31 edge and far, API flavour, caller threads); entry and trampoline decoded by the mini-decoder, then really called; non-trivial = installed-and-called case that is page-straddling, below 128 MiB, uses the long trampoline form, has a fake displacement within 16 of +/-2^31, or is a re-fake of a function faked 1-3 times before through the same injector; distinct by (target, trampoline page, fake, flavour)";
     let mut rec = Recorder::new(prop, "n-place", rule);
     rec.assumptions.push("x86-64 Linux host; symbol interposition of mmap/munmap/mprotect/__clear_cache by the executable (calibrated at worker start)".into());
     let n = cases(2400, 120_000);
